@@ -158,11 +158,11 @@ Fixpoint prefixes (p : path) : list path :=
   | e :: rest => [] :: map (cons e) (prefixes rest)
   end.
 
-(* the kind of value R gives at q differs from L's: scalar vs list vs map (null and
-   empty containers have no kind of their own) *)
+(* the kind of value R gives at q differs from L's: scalar vs list vs map (null has no kind of its own; an empty
+   list is still a list, an empty map still a map) *)
 Definition kclass (v : value) : nat :=
   match v with
-  | VNull | VList [] | VMap [] => 0
+  | VNull => 0
   | VList _ => 2
   | VMap _ => 3
   | _ => 1
